@@ -165,6 +165,24 @@ def k2_queries(num, tier, only=None):
     return qs
 
 
+def counted_k2_queries(num, tier, only=None):
+    """C01 also quantifies over heap-owning value types: the insert and lookup steps are repeated with the instance-counting
+    value type, whose moved-from instances are poisoned, so that a value moved out twice (invisible with uint64_t) is seen as
+    a stored value that is not the one written"""
+    if num != 1:
+        return []
+    cfg = TIERS[tier]
+    qs = []
+    for cont in plan.CONTAINERS:
+        if cont == 'utset' or (only and cont not in only):
+            continue
+        for op in ('insert', 'find'):
+            for p in (1, 99):
+                q = plan.k2_query(cont, op, 2, p, 'no', timeout=cfg['k2_timeout'], extra={'VAL_COUNTED': 1}, tag='_counted')
+                qs.append(q)
+    return qs
+
+
 def k1_queries(num, tier, only=None):
     cfg = TIERS[tier]
     qs = []
@@ -566,7 +584,8 @@ def run_property(num, tier, seed, only=None):
                             'allocation failure; clocks beyond 2^40 ticks or decreasing; lfuda ratios other than 1/2'}
     pid = ev.pid
     known, _fixed = load_known()
-    qs = k2_queries(num, tier, only) + k1_queries(num, tier, only) + k5_queries(num, tier, only) + counted_queries(num, tier, only) + range_aspect_queries(num, tier, only)
+    qs = (k2_queries(num, tier, only) + k1_queries(num, tier, only) + k5_queries(num, tier, only) + counted_queries(num, tier, only)
+          + range_aspect_queries(num, tier, only) + counted_k2_queries(num, tier, only))
     sys.stderr.write('%s %s: %d queries\n' % (pid, tier, len(qs)))
     validate_translation(ev, sorted({q.meta['cont'] for q in qs}), seed, tier)
     core.run_all(qs)
